@@ -121,7 +121,7 @@ def run(ctx, scratch):
                     if bad:
                         ctx.violation(name, 'output differs between containers: %s' % bad[0][0], case=case, entry=name,
                                       variant=fmt + '/' + dt, mismatches=bad[:4], kind='format_dependence',
-                                      base={k: base['ok'][k] for k, _ in bad[:2]}, observed={k: out['ok'].get(k) for k, _ in bad[:2]})
+                                      base={k: base['ok'].get(k) for k, _ in bad[:2]}, observed={k: out['ok'].get(k) for k, _ in bad[:2]})
                 if rep == 0 and len(ctx.samples) < 6:
                     ctx.sample(dict(name=name, family=fam, m=spec, opts=opts))
     ctx.rule = ('every registered public algorithm x graphs (square directed/undirected, connected symmetric, biadjacency) x '
